@@ -37,7 +37,7 @@ def jRow : Option Vec → Json
   | none => Json.str "garbage"
 
 /-- {"method":"euler|heun","inplace":b,"copy_rhs":b,"field":[[term..]..],"U":[[..]],"t0":n,"T":q,"dt":q,"dts":q,
-     "cutoff":q|null,"axis":"arange|linspace","y0":[..],"rows_only":b} -/
+     "cutoff":q|null,"axis":"arange|linspace","y0":[..],"rows_only":b,"guarded":b} -/
 def solverCmd (j : Json) : Except String Json := do
   let meth ← getStr (← field j "method")
   let inplace ← (← field j "inplace").getBool?
@@ -50,6 +50,7 @@ def solverCmd (j : Json) : Except String Json := do
   let dts ← getRat (← field j "dts")
   let y0 ← getVec (← field j "y0")
   let rowsOnly ← (← field j "rows_only").getBool?
+  let guarded := match fieldOpt j "guarded" with | some (.bool b) => b | _ => false
   let f := mkField fs U
   let step : Rat → Nat → Vec → Vec := fun dt =>
     if meth == "euler" then eulerStepCode f dt t0 else heunStepCode f inplace copyRhs dt t0
@@ -58,7 +59,7 @@ def solverCmd (j : Json) : Except String Json := do
     let steps := (pyRound (T / dt)).toNat
     let storeSteps := (pyRound (T / dts)).toNat
     let storeStep := (pyRound (dts / dt)).toNat
-    match solve (step dt) steps storeSteps storeStep y0 with
+    match solve guarded (step dt) steps storeSteps storeStep y0 with
     | .ok rows => return Json.mkObj [("rows", Json.arr (rows.map jRow).toArray)]
     | .error e => return Json.mkObj [("error", errS e)]
   else
@@ -66,7 +67,7 @@ def solverCmd (j : Json) : Except String Json := do
     let axis ← getStr (← field j "axis")
     let kind := if axis == "arange" then AxisKind.arangeStep else AxisKind.linspaceOpen
     let scheme := match fieldOpt j "scheme" with | some (.str s) => s | _ => "loop"
-    match (if scheme == "scan" then runScan kind step { T, dt, dts, cutoff } y0 else runFixed kind step { T, dt, dts, cutoff } y0) with
+    match (if scheme == "scan" then runScan kind step { T, dt, dts, cutoff } y0 else runFixed guarded kind step { T, dt, dts, cutoff } y0) with
     | .ok rows => return Json.mkObj [("rows", Json.arr (rows.map (fun r => Json.arr #[jRat r.1, jRow r.2])).toArray)]
     | .error e => return Json.mkObj [("error", errS e)]
 
